@@ -641,6 +641,22 @@ func ens_af_limit(c *Conn, old_c Conn, ret0 int, ret1 error) bool {
 	return c.readLength == old_c.readLength+c.readRemaining && c.readLength >= 0 && (c.readLimit <= 0 || c.readLength <= c.readLimit) && c.readLimit == old_c.readLimit
 }
 
+// C13 (receiving side): every masked frame is unmasked with ITS key from key octet 0 (5.3): after the header of an
+// accepted data frame the key held is the four octets in front of the payload and the key position is 0
+//@ ensures (*Conn).advanceFrame C13.read.mask-key
+func ens_af_maskkey(c *Conn, old_c Conn, ret0 int, ret1 error) bool {
+	if ret1 != nil || !old_c.isServer {
+		return true
+	}
+	if !(ret0 == TextMessage || ret0 == BinaryMessage || ret0 == continuationFrame) {
+		return c.readMaskPos == 0
+	}
+	k := ghost_rd_pos(c.br) - 4
+	key := c.readMaskKey[:]
+	return c.readMaskPos == 0 && key[0] == ghost_rd_at(c.br, k) && key[1] == ghost_rd_at(c.br, k+1) &&
+		key[2] == ghost_rd_at(c.br, k+2) && key[3] == ghost_rd_at(c.br, k+3)
+}
+
 // a frame is only ever marked compressed when a decompressor was negotiated
 //@ ensures (*Conn).advanceFrame C14.decompress-negotiated
 func ens_af_decompress(c *Conn, old_c Conn, ret1 error) bool {
@@ -698,11 +714,47 @@ func ens_mrRead_sticky(r *messageReader, ret0 int, ret1 error) bool {
 	return ret0 == 0 && ret1 != nil && ghost_rd_pos(r.c.br) == ghost_old_rd_pos(r.c.br)
 }
 
+// C13 (receiving side): the key position follows the bytes handed out: it continues from where the previous Read of
+// this frame stopped, and starts at 0 when this Read had to open the next frame first
+func oldspec_readRemaining(c *Conn) int64 { return c.readRemaining }
+func oldspec_readMaskPos(c *Conn) int     { return c.readMaskPos }
+
+//@ ensures (*messageReader).Read C13.read.mask-pos
+func ens_mrRead_maskpos(r *messageReader, ret0 int) bool {
+	c := r.c
+	if ret0 <= 0 || !c.isServer {
+		return true
+	}
+	if oldspec_readRemaining(c) > 0 {
+		return c.readMaskPos == (oldspec_readMaskPos(c)+ret0)&3
+	}
+	return c.readMaskPos == ret0&3
+}
+
+// C13 (receiving side): the bytes handed to the application are the payload octets of the frame, unmasked with the
+// frame's key at the right key position (5.3) when they come from a client, untouched when they come from a server
+//@ ensures (*messageReader).Read C13.read.payload
+func ens_mrRead_payload(r *messageReader, b []byte, ret0 int) bool {
+	c := r.c
+	if ret0 <= 0 {
+		return true
+	}
+	at := ghost_rd_pos(c.br) - ret0
+	if !c.isServer {
+		return prim_forall(ret0, func(i int) bool { return b[i] == ghost_rd_at(c.br, at+i) })
+	}
+	key := c.readMaskKey[:]
+	p0 := c.readMaskPos - ret0
+	return prim_forall(ret0, func(i int) bool { return b[i] == ghost_rd_at(c.br, at+i)^key[(p0+i)&3] })
+}
+
 //@ invariant (*messageReader).Read 0
 func inv_mrRead0(r *messageReader, c *Conn) bool {
 	return c != nil && r.c == c && (c.readErr != nil || spec_wfReader(c)) && oldspec_current(r) && c.messageReader == r &&
 		ghost_rd_pos(c.br) >= ghost_old_rd_pos(c.br) &&
-		(oldspec_readErr(c) == nil || c.readErr == oldspec_readErr(c) && ghost_rd_pos(c.br) == ghost_old_rd_pos(c.br))
+		(oldspec_readErr(c) == nil || c.readErr == oldspec_readErr(c) && ghost_rd_pos(c.br) == ghost_old_rd_pos(c.br)) &&
+		(c.readRemaining == oldspec_readRemaining(c) && c.readMaskPos == oldspec_readMaskPos(c) ||
+			oldspec_readRemaining(c) <= 0 && (c.readErr != nil || !c.isServer || c.readMaskPos == 0))
 }
 
 //@ decreases (*messageReader).Read 0
